@@ -6,7 +6,8 @@
     Claimed as PARTIAL:
     proved      the rescale step (one position per node; bonded nodes stay distinct; squared lengths scale by
                 factor^2, over Q; mean bond length = default_bond, over R) and rotate_subgraph (bond lengths
-                preserved under the component contract, for any isometry fixing the anchor); label independence
+                preserved under the component contract, for any isometry fixing the anchor) and the whole
+                check_and_fix_cis_trans loop (only rotates about edges; bond lengths preserved); label independence
                 of the update loop.
     NOT proved  (oracle hypotheses, checked on every layout of the run by tools/props/c19.py): Kamada-Kawai /
                 Fruchterman-Reingold return finite positions in which bonded nodes do not coincide (so the
@@ -15,7 +16,7 @@
     Axioms: ONLY [C19_rescale_mean*] and [C19_mean_nonzero] (square roots over the standard-library reals). *)
 From Coq Require Import List ZArith Bool QArith Reals.
 From CGV Require Import Base.PyBase Geom.Num Gen.GeomGen Geom.IndexMap Geom.Scale Geom.Rotate
-     Geom.ScaleProofs Geom.ScaleProofsR Geom.RotateProofs.
+     Geom.ScaleProofs Geom.ScaleProofsR Geom.RotateProofs Geom.CisTrans Geom.CisTransProofs.
 Import ListNotations.
 
 (** exactly the keys of the pre-scale dict, in the same order: one position per node *)
@@ -73,7 +74,36 @@ Theorem C19_rotate_moves_only_component : forall {P : Type} (rot : P -> P -> P) 
   rotate_subgraph rot edges anchor target comps points = Ok (c, points') -> zmem k c = false -> points' k = points k.
 Proof. exact @rotate_moves_only_component. Qed.
 
+(** check_and_fix_cis_trans (model Geom/CisTrans.v; np.isclose and connected_components are transcripts):
+    every rotation it executes is about an EDGE anchor-target of the graph ... *)
+Theorem C19_fix_rotates_only_about_edges : forall {P : Type} (rotf : Z -> (Z -> P) -> ezitem -> P -> P -> P)
+    edges items closes tr pts pts' trace,
+  check_and_fix_cis_trans rotf edges items closes tr pts = Ok (pts', trace) -> Forall (call_on_edge edges) trace.
+Proof. exact @fix_rotates_only_about_edges. Qed.
+(** ... an item that is not skipped and whose n2-n1 is not an edge makes the call fail (networkx raises) ... *)
+Theorem C19_fix_fails_off_edge : forall {P : Type} (rotf : Z -> (Z -> P) -> ezitem -> P -> P -> P)
+    edges it r closes closes' ang comps tr pts,
+  decide it closes = Ok (DRotate ang, closes') -> has_edge edges (ez2 it) (ez1 it) = false ->
+  check_and_fix_cis_trans rotf edges (it :: r) closes (comps :: tr) pts = Err ELookup.
+Proof. exact @fix_fails_off_edge. Qed.
+(** ... and the whole correction preserves every bond length (hypotheses kept: every call's rotation is an isometry
+    fixing its origin; every picked component satisfies the connected_components contract) *)
+Theorem C19_fix_preserves_bonds : forall {P D : Type} (dist : P -> P -> D) (rotf : Z -> (Z -> P) -> ezitem -> P -> P -> P),
+  (forall ang pts it o p q, dist (rotf ang pts it o p) (rotf ang pts it o q) = dist p q) ->
+  (forall ang pts it o, rotf ang pts it o o = o) ->
+  forall edges items closes tr pts pts' trace,
+    check_and_fix_cis_trans rotf edges items closes tr pts = Ok (pts', trace) ->
+    Forall (call_contract edges) trace ->
+    forall e, In e edges -> dist (pts' (fst e)) (pts' (snd e)) = dist (pts (fst e)) (pts (snd e)).
+Proof. exact @fix_preserves_bonds. Qed.
+
 (** ---------- non-vacuity *)
+Example C19_nonvacuous_fix :
+  let edges := [(0, 1); (1, 2); (2, 3)]%Z in
+  let it := {| ez1 := 0; ez2 := 1; ez3 := 2; ez4 := 3; ezty := EzTrans; lt14 := true |}%Z in
+  exists pts', check_and_fix_cis_trans (fun _ _ _ o p => 2 * o - p)%Z edges [it] [false] [[[0]; [1; 2; 3]]]%Z (fun k => 10 * k)%Z
+               = Ok (pts', [(1, 0, 120, [0])]%Z) /\ pts' 0%Z = 20%Z /\ call_contract edges (1, 0, 120, [0])%Z.
+Proof. exact (let '(ex_intro _ p (conj a (conj b (conj _ d)))) := fix_nonvacuous in ex_intro _ p (conj a (conj b d))). Qed.
 Example C19_nonvacuous_mean :
   let posf := fun k : Z => if Z.eqb k 0 then (0, 0)%R else (3, 4)%R in
   mean_bond numR sqrt posf [(0, 1)%Z] <> 0%R /\ (0 <= 2)%R.
@@ -103,3 +133,6 @@ Print Assumptions C19_rescale_mean_dict.
 Print Assumptions C19_mean_nonzero.
 Print Assumptions C19_rotate_preserves_bonds.
 Print Assumptions C19_rotate_moves_only_component.
+Print Assumptions C19_fix_rotates_only_about_edges.
+Print Assumptions C19_fix_fails_off_edge.
+Print Assumptions C19_fix_preserves_bonds.
